@@ -17,8 +17,9 @@ CONC = {"i1a": {"$i64": "1"}, "i1b": {"$u64": "1"}, "i2": 2, "sa": "a", "sb": "b
         "m1": {"k": 1, "id": "m1"}, "m2": {"k": {"$u64": "1"}, "id": "m2"}, "m3": {"k": 2, "id": "m3"}, "ms": {"k": "a", "id": "ms"},
         "mx": {"id": "mx"}, "mn": {"k": None, "id": "mn"}, "ar": [1], "ax": [1, "a"], "a13": [1, 3], "a2": [2],
         "m0": {}, "mxz": {"id": "mx", "zz": 1}, "aq": [{"q": 1}], "aq2": [{"q": 1}, 2], "in1": {"$i64": "-1"}, "mk": {"k": {"$i64": "-1"}, "id": "mk"}, "fm15": {"$f64": "-1.5"},
-        "z0": {"$u64": "0"}, "zU": {"$u128": "0"}, "bt": True, "bf": False}          # m0 = {} and mxz = mx plus a key sorting last: "prefix" maps of mx
-SHOWN = {"i1a": "1", "i1b": "1", "i2": "2", "sa": "a", "sb": "b", "nn": "N", "ar": "A1", "ax": "A1a", "a13": "A13", "a2": "A2", "m0": "M0", "mxz": "mxz", "aq": "A{\"q\": 1}", "aq2": "A{\"q\": 1}2", "in1": "-1", "fm15": "-1.5", "z0": "0", "zU": "0", "bt": "true", "bf": "false"}
+        "z0": {"$u64": "0"}, "zU": {"$u128": "0"}, "bt": True, "bf": False,
+        "f53": {"$f64": "9007199254740992.0"}, "i53": {"$i64": "9007199254740993"}}          # m0 = {} and mxz = mx plus a key sorting last: "prefix" maps of mx
+SHOWN = {"i1a": "1", "i1b": "1", "i2": "2", "sa": "a", "sb": "b", "nn": "N", "ar": "A1", "ax": "A1a", "a13": "A13", "a2": "A2", "m0": "M0", "mxz": "mxz", "aq": "A{\"q\": 1}", "aq2": "A{\"q\": 1}2", "in1": "-1", "fm15": "-1.5", "z0": "0", "zU": "0", "bt": "true", "bf": "false", "f53": "9007199254740992.0", "i53": "9007199254740993"}
 ITEM = ("{% if e is map %}{% if e | length == 0 %}M0{% elif e.zz is defined %}mxz{% else %}{{ e.id }}{% endif %}{% elif e is array %}A{{ e | join }}"
         "{% elif e is none %}N{% else %}{{ e }}{% endif %},")
 
@@ -38,7 +39,7 @@ def run(tier):
         f.write(open(vp.SPEC + "/MC_Builtins.cfg").read().replace("MaxLen = 3", "MaxLen = %d" % maxlen).replace("INVARIANT InvObs\n", ""))
     r = vp.tlc("MC_Builtins", "MC_Builtins_run", env={"OBS": ""}, workers=8, timeout=3000, name="c16")
     C.add_tlc(r, "MC_Builtins MaxLen=%d" % maxlen)
-    C.cov["rule"] = ("all arrays of length <= %d over 23 abstract elements x 9 filter families; plus random long arrays checked by contract; "
+    C.cov["rule"] = ("all arrays of length <= %d over 29 abstract elements x 9 filter families; plus random long arrays checked by contract; "
                      "non-trivial = distinct (array, filter) with a specified outcome and a non-empty array" % maxlen)
     jobs, meta = [], []
     for v in r.tags["VEC"]:
